@@ -316,6 +316,8 @@ def t_pipeline(sess, system, n_grains):
 
 def default_cex(name):
     """Generic public-API replay for verdicts that carry no more specific counterexample."""
+    if name.startswith("batched"):
+        return {"replay": "vf.props.C14:replay_batched", "case": {}, "cls": {"kind": "batched M-index deviates from the per-snapshot values"}}
     return {"replay": "vf.props.replays:c14_triclinic", "case": {}, "cls": {"kind": "triclinic misorientation pipeline not invariant"}}
 
 
@@ -340,7 +342,9 @@ def t_batched(sess):
         def __exit__(self, *a):
             return False
 
-        def imap(self, f, it_):
+        def imap(self, f, it_, chunksize=1):
+            if chunksize < 1:  # multiprocessing.Pool's own argument check
+                raise ValueError(f"Chunksize must be 1+, not {chunksize}")
             for x in it_:
                 yield f(x)
 
@@ -350,15 +354,50 @@ def t_batched(sess):
         calls.append((orientations, system, bins))
         return orientations  # the snapshot's own marker stands for its index value
 
-    stack = [10.5, 11.5, 12.5, 13.5]
     results = {}
     with patched((diag, "Pool", FakePool), (diag, "misorientation_index", fake_index), (diag, "HAS_RAY", False)):
-        for label, kw in (("own pool, ncpus=3", dict(ncpus=3)), ("own pool, default ncpus", dict()), ("supplied pool", dict(pool=FakePool(2)))):
-            calls.clear()
-            out = diag.misorientation_indices(stack, geo.LatticeSystem.triclinic, bins=7, **kw)
-            results[label] = (list(out), [(c[1], c[2]) for c in calls])
-    for label, (out, meta) in results.items():
-        sess.prove(f"batched [{label}]: one value per snapshot, in snapshot order", [], z3.BoolVal(out == stack))
-        sess.prove(f"batched [{label}]: every snapshot is evaluated with the requested lattice system and bins", [],
+        for nstack in (1, 2, 4, 9):
+            stack = [10.5 + i for i in range(nstack)]
+            for label, kw in [(f"own pool, ncpus={w}", dict(ncpus=w)) for w in (1, 3, 16)] + [("own pool, default ncpus", dict()), ("supplied pool", dict(pool=FakePool(2)))]:
+                calls.clear()
+                try:
+                    out = list(diag.misorientation_indices(stack, geo.LatticeSystem.triclinic, bins=7, **kw))
+                except Exception as e:  # noqa: BLE001
+                    out = f"{type(e).__name__}: {e}"
+                results[(nstack, label)] = (out, [(c[1], c[2]) for c in calls], stack)
+    for (nstack, label), (out, meta, stack) in results.items():
+        sess.prove(f"batched [{nstack} snapshots, {label}]: one value per snapshot, in snapshot order", [], z3.BoolVal(out == stack))
+        sess.prove(f"batched [{nstack} snapshots, {label}]: every snapshot is evaluated with the requested lattice system and bins", [],
                    z3.BoolVal(all(m == (geo.LatticeSystem.triclinic, 7) for m in meta) and len(meta) == len(stack)))
     sess.satisfiable("batched: reach", [])
+
+
+def replay_batched(case):
+    """Real multiprocessing pools: short and long stacks, several worker counts, a supplied pool."""
+    import multiprocessing as mp
+
+    import numpy as np
+    import pydrex
+    from pydrex import geometry as geo
+    from scipy.spatial.transform import Rotation
+
+    sysm = geo.LatticeSystem.triclinic
+    problems = []
+    for n in (1, 2, 5):
+        stack = np.array([Rotation.random(8, random_state=10 + i).as_matrix() for i in range(n)])
+        want = [pydrex.misorientation_index(a, sysm) for a in stack]
+        for kw in (dict(ncpus=1), dict(ncpus=3), dict(ncpus=8), dict()):
+            try:
+                got = pydrex.diagnostics.misorientation_indices(stack, sysm, **kw)
+                if not np.allclose(got, want, rtol=0, atol=0):
+                    problems.append(f"{n} snapshots, {kw}: values differ from the per-snapshot index")
+            except Exception as e:  # noqa: BLE001
+                problems.append(f"{n} snapshots, {kw}: {type(e).__name__}: {e}")
+        with mp.Pool(2) as pool:
+            try:
+                got = pydrex.diagnostics.misorientation_indices(stack, sysm, pool=pool)
+                if not np.allclose(got, want, rtol=0, atol=0):
+                    problems.append(f"{n} snapshots, supplied pool: values differ")
+            except Exception as e:  # noqa: BLE001
+                problems.append(f"{n} snapshots, supplied pool: {type(e).__name__}: {e}")
+    return {"reproduced": bool(problems), "detail": problems[:5] or "batched values equal per-snapshot values"}
